@@ -138,7 +138,7 @@ pub fn run(ctx: &Ctx, model: &mut Model, rep: &mut Report) {
         }
     }
     let d19_open = known::is_open(ctx, "C04", "D19");
-    let n = if ctx.thorough { 6000 } else { 400 };
+    let n = if ctx.thorough { 6000 } else { 800 };
     for i in 0..n {
         let mut r = Rng::for_case(ctx.seed ^ 0xC04, i as u64);
         let mut h = hist::gen_history(&mut r, true, 8);
